@@ -713,6 +713,21 @@ def wide_geometry_case():
           bad.append("exp_spline %r..%r: %s at %s is %r, the end potential's %r" % (d, a, what, nm, g, w_))
     res["paths"] += 1
     res["replays"] += 1
+  # an end potential that is exactly zero at its join (smooth truncation): the exponential form is shifted, not logged at 0
+  for (S0, E0, d, a, what0) in ((pfm.bornmayer(1000.0, 0.3), pfm.zero(), 2.0, 3.0, "bornmayer -> zero"), (pfm.zero(), pfm.bornmayer(1000.0, 0.3), 0.5, 1.0, "zero -> bornmayer"),
+                                (pfm.zbl(8, 8), pfm.constant(0.0), 1.0, 2.0, "zbl -> constant 0")):
+    it = SplinePotential(S0, E0, d, a).interpolationFunction
+    for nm, f, x in (("detach", S0, d), ("attach", E0, a)):
+      e1 = f.deriv(x) if hasattr(f, "deriv") else 0.0
+      e2 = f.deriv2(x) if hasattr(f, "deriv2") else 0.0
+      for what, g, w_ in (("value", it(x), f(x)), ("slope", it.deriv(x), e1), ("curvature", it.deriv2(x), e2)):
+        if not rel(g, w_):
+          bad.append("exp_spline %s, %r..%r: %s at %s is %r, the end potential's %r" % (what0, d, a, what, nm, g, w_))
+    xm = 0.5 * (d + a)
+    if not (it(xm) == it(xm)):
+      bad.append("exp_spline %s: value inside the region is %r" % (what0, it(xm)))
+    res["paths"] += 1
+    res["replays"] += 1
   S4, E4 = pfm.buck(1000.0, 0.3, 0.0), pfm.buck(0.0, 1.0, 30.0)
   for d, m, a in ((5.0, 5.5, 6.0), (4.6, 5.1, 5.6), (3.1, 3.35, 3.6)):
     it = Buck4_SplinePotential(S4, E4, d, a, m).interpolationFunction
